@@ -51,7 +51,7 @@ def histories(draw):
     if draw(st.integers(0, 11)) == 0:
         at = draw(st.integers(0, len(ops)))
         ops.insert(at, ["insert_multiple", draw(huge_batch), draw(st.integers(0, 3)), draw(st.sampled_from(["inorder", "asis"])), "db", None, "m1"])
-    return {"ops": ops, "auto_index": draw(st.booleans())}
+    return {"ops": ops, "auto_index": draw(st.booleans()), "symlink": draw(st.integers(0, 7)) == 0}
 
 
 def bulk_case(n, auto):
@@ -60,6 +60,15 @@ def bulk_case(n, auto):
     base = [{"time": t, "measurement": "m1", "tags": {"a": "x"}, "fields": {"a": 1}}, {"time": t, "measurement": "m2", "tags": {"a": "x,y"}, "fields": {}}]
     batch = [{"time": gen.TIMES[0], "measurement": "m1" if i % 7 else "a,b", "tags": {"a": "x", "n": "row-%05d" % i}, "fields": {"a": i % 3, "f": 2.0}} for i in range(n)]
     return {"ops": [["insert_multiple", base, 0, "asis", "db", None, "m1"], ["insert_multiple", batch, 0, "asis", "db", None, "m1"]], "auto_index": auto}
+
+
+def make_link(path):
+    """The database is opened through a symbolic link (a common deployment: data directory elsewhere); what counts after a crash
+    is what the path the user opened leads to."""
+    target = path + ".target"
+    with open(target, "w"):
+        pass
+    os.symlink(os.path.basename(target), path)
 
 
 def decode_image(img, d, n, auto):
@@ -83,7 +92,7 @@ def run_case(case, ctx, acc, kill_validation=0):
     try:
         return _run_case(case, ctx, acc, kill_validation)
     except Violation as v:
-        v.case = dict(v.case, auto_index=case["auto_index"], ops=v.case.get("ops", case["ops"]))
+        v.case = dict(v.case, auto_index=case["auto_index"], symlink=bool(case.get("symlink")), ops=v.case.get("ops", case["ops"]))
         v.case.pop("config", None)
         raise
 
@@ -93,6 +102,8 @@ def _run_case(case, ctx, acc, kill_validation=0):
     real = ls.reals[0]
     real.close()
     os.remove(real.path)
+    if case.get("symlink"):
+        make_link(real.path)
     world = iolayer.World(real.path, mode="snapshot")
     info = {"ops": [], "nontrivial": 0}
     try:
@@ -173,6 +184,8 @@ def replay_child(case, path, kill_at):
     real.close()
     os.remove(real.path)
     real.path = path
+    if case.get("symlink"):
+        make_link(path)
     world = iolayer.World(path, mode="record", kill_at=kill_at)
     iolayer.install(world)
     real.open()
@@ -238,6 +251,7 @@ def run_shard(spec, ctx):
 
 def minimize(v, ctx, budget=60):
     case = {k: v.case[k] for k in ("ops", "auto_index")}
+    link = bool(v.case.get("symlink"))
     ops = list(case["ops"])
     best = v
     i = 0
@@ -248,7 +262,7 @@ def minimize(v, ctx, budget=60):
             i += 1
             continue
         try:
-            run_case({"ops": cand, "auto_index": case["auto_index"]}, core.Ctx("minimize", 0, ctx.known, ctx.scratch, 0), core.Acc())
+            run_case({"ops": cand, "auto_index": case["auto_index"], "symlink": link}, core.Ctx("minimize", 0, ctx.known, ctx.scratch, 0), core.Acc())
             i += 1
         except Violation as w:
             if w.sub == v.sub:
@@ -262,7 +276,7 @@ def minimize(v, ctx, budget=60):
 
 
 def replay(sub, case, ctx):
-    run_case({"ops": case["ops"], "auto_index": case["auto_index"]}, ctx, ctx.acc)
+    run_case({"ops": case["ops"], "auto_index": case["auto_index"], "symlink": bool(case.get("symlink"))}, ctx, ctx.acc)
 
 
 def finish(merged, tier):
